@@ -21,6 +21,7 @@ import sympy
 from sympy.logic.boolalg import to_anf, to_cnf, to_dnf, to_nnf
 
 import qlasskit
+from qlasskit.boolopt.bool_optimizer import merge_expressions
 from qlasskit.qlassfun import QlassF
 from qlasskit.tools.utils import parse_str
 
@@ -35,7 +36,10 @@ def read_input(input_file):
 
 
 def convert_to_bool_expression(qlassf: QlassF, form: str):
-    combined_expr = sympy.And(*[expr[1] for expr in qlassf.expressions])
+    # Only the return bits are part of the result: inline the intermediate symbols
+    combined_expr = sympy.And(
+        *[expr[1] for expr in merge_expressions(qlassf.expressions)]
+    )
 
     if form == "anf":
         return to_anf(combined_expr)
